@@ -16,6 +16,9 @@ Regime E: nets on which every subdivision of every round is exact in binary64 (b
 Regime T: binary64 nets (perturbed lattices, degree 1..5), points = rounded evaluations and off-surface points; None-ness is
           compared when the model's decision margin (least distance of the point to an edge of a tested box) is clear of the
           rounding of the subdivided nets; parameters within tolerance.
+Families FAR / BOX-OFF (props/c10_far.py), off-surface points only: the nets of both regimes translated far from the origin
+          (integer translations in regime E) and points strictly outside the control-point box at graded distances down to one
+          ulp; None-ness against the exact model (regime E: always, regime T: clear margin) and None outside the box.
 """
 import os
 import sys
@@ -25,6 +28,7 @@ from fractions import Fraction as Fr
 import common as C
 import exact as X
 import gen as G
+import c10_far as FAR
 
 
 def tri_nodes_lattice(d):
@@ -200,6 +204,46 @@ def main():
                 for _ in range(2):
                     s, t = rnd.uniform(0.1, 0.4), rnd.uniform(0.1, 0.4)
                     add("T-newton", nodes=nodes, d=d, s=Fr(s), t=Fr(t), s0=Fr(s + rnd.uniform(-0.05, 0.05)), t0=Fr(t + rnd.uniform(-0.05, 0.05)))
+
+    if not rep:
+        # ---- FAR / BOX-OFF families, off-surface points (kinds E-off / T-off, tagged fam=...)
+        far_i = rnd.randrange(len(FAR.FAR_K))
+
+        def boxoff(kind_, nodes, d, every, **extra):
+            bases = [[nodes[0][c], nodes[1][c]] for c in FAR.tri_corners(d)]
+            pts = FAR.box_off_points(nodes, bases)
+            start = rnd.randrange(every)
+            for p, grade in pts[start::every]:
+                add(kind_, nodes=nodes, d=d, point=p, grade=grade, **extra)
+
+        for d in (1, 2, 3):
+            for _ in range(1 if not thorough else 6):
+                td, base = e_net(rnd, d, 4 if d == 1 else 0)
+                k = min(max(FAR.FAR_K[far_i % len(FAR.FAR_K)], 3), 26)
+                far_i += 1
+                offs = [rnd.choice((-1, 1)) * rnd.choice((4, 5, 6, 7)) * 2 ** (k - 2) for _ in range(2)]
+                far = [[v + o for v in r] for r, o in zip(base, offs)]
+                assert all(C.is_exact_float(v) for r in far for v in r)
+                xs, ys = far
+                add("E-off", nodes=far, d=d, td=td, point=[max(xs) + 1, ys[0]], fam="far")
+                add("E-off", nodes=far, d=d, td=td, point=[xs[0], min(ys) - Fr(1, 4)], fam="far")
+                add("E-off", nodes=far, d=d, td=td, point=[max(xs), max(ys)], fam="far")
+                nn = len(xs)
+                outward = [far[r][d] + far[r][nn - 1] - 2 * far[r][0] for r in range(2)]
+                for kk in range(15, 27):
+                    sh = rnd.choice([Fr(1, 2), Fr(1, 4), Fr(3, 4), Fr(3, 8), Fr(5, 16)])
+                    bp = [X.tri_eval(r, d, 0, sh, 1 - sh) for r in far]
+                    add("E-off", nodes=far, d=d, td=td, point=[bp[0] + outward[0] * Fr(1, 2 ** kk), bp[1] + outward[1] * Fr(1, 2 ** kk)], edge=kk, fam="far")
+                boxoff("E-off", far, d, 3, td=td, fam="far-boxoff")
+                boxoff("E-off", base, d, 3, td=td, fam="boxoff")
+        for d in (1, 2, 3, 4):
+            for _ in range(1 if not thorough else 4):
+                base = t_net(rnd, d)
+                k = FAR.FAR_K[far_i % len(FAR.FAR_K)]
+                far_i += 1
+                far = FAR.translate(base, FAR.offsets(rnd, 2, k, False))
+                boxoff("T-off", far, d, 4, fam="far-boxoff")
+                boxoff("T-off", base, d, 4, fam="boxoff")
 
     # ---------------------------------------------------------------- model queries
     drv = C.Driver()
